@@ -138,6 +138,19 @@ pub fn check_perform(
     }
 }
 
+/// announce to the hang watchdog: `instrs[sub]` is about to be performed in `pre`
+pub fn announce(mode: Mode, pre: &RState, names: std::sync::Arc<Vec<String>>) {
+    let st = pre.clone();
+    mcx::watch::enter(Box::new(move |sub| {
+        let name = names.get(sub).cloned().unwrap_or_default();
+        (
+            format!("perform/{name}/hang"),
+            format!("{name} in state {}", rstate_json(&st)),
+            json!({"check": format!("{mode:?}"), "kind": "perform", "state": rstate_json(&st), "state_full": rstate_ser(&st), "instruction": name}),
+        )
+    }));
+}
+
 pub trait PerformOn {
     fn perform_on(
         &self,
@@ -236,6 +249,7 @@ pub fn boundary_product(mode: Mode, run: &mut Run) -> Stats {
     run.bound("b.float_bool_exec_stack_len", json!(2));
     run.bound("b.capacity_patterns", json!(10));
     run.bound("b.instructions", json!(alpha.instrs.len()));
+    let names: std::sync::Arc<Vec<String>> = std::sync::Arc::new(alpha.instrs.iter().map(|(n, _)| n.clone()).collect());
     let shards: Vec<(usize, usize)> = (0..int_seqs.len())
         .flat_map(|i| (0..float_seqs.len()).map(move |f| (i, f)))
         .collect();
@@ -261,7 +275,9 @@ pub fn boundary_product(mode: Mode, run: &mut Run) -> Stats {
                     let mut pre_real = real_base.clone();
                     set_caps(&mut pre_real, caps);
                     st.states += 1;
-                    for (name, instr) in &alpha.instrs {
+                    announce(mode, &pre_ref, names.clone());
+                    for (ix, (name, instr)) in alpha.instrs.iter().enumerate() {
+                        mcx::watch::step(ix);
                         let (v, _) = check_perform(mode, &pre_real, &pre_ref, instr, name, &mut st);
                         if let Some((key, what)) = v {
                             if viols.len() < 50 {
@@ -327,10 +343,14 @@ pub fn value_sweep(mode: Mode, run: &mut Run) -> Stats {
     run.bound("d.wide_int_values", json!(ints.len()));
     run.bound("d.wide_float_values", json!(floats.len()));
     run.bound("d.shape", json!("ints: all ordered triples (top, second, third); floats: all ordered pairs; each with both booleans on the bool stack; roomy capacities"));
-    let one = |st: &mut Stats, viols: &mut Vec<(String, String, Value)>, base: &RState, instrs: &[&(String, PushInstruction)]| {
+    let int_names: std::sync::Arc<Vec<String>> = std::sync::Arc::new(int_instrs.iter().map(|(n, _)| n.clone()).collect());
+    let float_names: std::sync::Arc<Vec<String>> = std::sync::Arc::new(float_instrs.iter().map(|(n, _)| n.clone()).collect());
+    let one = |st: &mut Stats, viols: &mut Vec<(String, String, Value)>, base: &RState, instrs: &[&(String, PushInstruction)], names: &std::sync::Arc<Vec<String>>| {
         let real = make_real(base, 100);
         st.states += 1;
-        for (name, instr) in instrs {
+        announce(mode, base, names.clone());
+        for (ix, (name, instr)) in instrs.iter().enumerate() {
+            mcx::watch::step(ix);
             let (v, _) = check_perform(mode, &real, base, instr, name, st);
             if let Some((key, what)) = v {
                 if viols.len() < 50 {
@@ -352,7 +372,7 @@ pub fn value_sweep(mode: Mode, run: &mut Run) -> Stats {
                         base.int = vec![z, *y, *x];
                         base.float = vec![floats[k % floats.len()]];
                         base.boolean = vec![b];
-                        one(&mut st, &mut viols, &base, &int_instrs);
+                        one(&mut st, &mut viols, &base, &int_instrs, &int_names);
                     }
                 }
             }
@@ -362,9 +382,10 @@ pub fn value_sweep(mode: Mode, run: &mut Run) -> Stats {
                 base.int = vec![ints[k % ints.len()]];
                 base.float = vec![1.25, y, *x];
                 base.boolean = vec![k % 2 == 0];
-                one(&mut st, &mut viols, &base, &float_instrs);
+                one(&mut st, &mut viols, &base, &float_instrs, &float_names);
             }
         }
+        mcx::watch::leave();
         (st, viols)
     });
     let mut total = Stats::default();
@@ -523,7 +544,9 @@ impl Model for VmModel {
         let mut pre_ref = observe(&st.real);
         pre_ref.inputs = default_inputs();
         let mut local = Stats::default();
+        announce(self.mode, &pre_ref, std::sync::Arc::new(vec![name.clone()]));
         let (v, real) = check_perform(self.mode, &st.real, &pre_ref, instr, name, &mut local);
+        mcx::watch::leave();
         self.transitions.fetch_add(1, Ordering::Relaxed);
         self.stats.lock().unwrap().merge(&local);
         let mut hist = st.hist.clone();
@@ -678,6 +701,9 @@ pub fn replay(mode: Mode, v: &Value) -> bool {
 
 pub fn run(mode: Mode, run: &mut Run) {
     let quick = run.quick();
+    // one instruction, or one short program under one step limit, takes microseconds; 60 s without
+    // returning is reported as a hang of the subject
+    mcx::watch::start(&run.property, &run.tier, std::time::Duration::from_secs(60));
     let b = boundary_product(mode, run);
     let a = transition_system(mode, run);
     let d = value_sweep(mode, run);
